@@ -14,11 +14,13 @@ import (
 func verifDup(b []byte) []byte { return append([]byte{}, b...) }
 
 // verifStore: client A and client B each with a current and one rotated key of both kinds; all keys distinct.
-func verifStore() *vks.Store {
+func verifStore() *vks.Store { return verifStoreN(2) }
+
+func verifStoreN(nkeys int) *vks.Store {
 	s := vks.New()
 	var seen [][]byte
 	for _, id := range []string{"A", "B"} {
-		for r := 0; r < 2; r++ {
+		for r := 0; r < nkeys; r++ {
 			k := verif.Bytes("sym"+id+string(rune('0'+r)), 32)
 			for _, o := range seen {
 				verif.Assume(!verif.Eq(k, o))
@@ -164,8 +166,10 @@ func VerifC01_OldContainerAfterLookalike() {
 		return
 	}
 	inner := c[SerializedContainerMinSize:]
-	noise := verif.Bytes("noise", SerializedContainerMinSize+1)
-	verif.Assume(verif.Eq(noise[:3], TagBegin))
+	// "%%%" + eight zero bytes + an arbitrary id byte + one arbitrary byte
+	noise := make([]byte, SerializedContainerMinSize+1)
+	copy(noise, TagBegin)
+	copy(noise[SerializedContainerMinSize-1:], verif.Bytes("noise", 2))
 	col := append(verifDup(noise), inner...)
 	want := append(verifDup(noise), d...)
 	_, out, err := wrapper.OnColumn(verifCtx("A"), verifDup(col))
@@ -179,7 +183,7 @@ func VerifC01_OldContainerAfterLookalike() {
 // column comes back unchanged. reader 0 = client B (has its own, different keys), reader 1 = identity without keys.
 func VerifC02_OtherClientColumn() {
 	InitRegistry(nil)
-	s := verifStore()
+	s := verifStoreN(1 + verif.Tier())
 	wrapper, rh := verifChain(s)
 	kind := verif.Choose("kind", 0, 1)
 	h := verifHandler(kind)
